@@ -35,6 +35,10 @@ pub struct VState {
     pub tie_breaks: u64,
     /// sleeps that completed without virtual time advancing, within the current poll
     pub immediate_sleeps: u32,
+    /// like a real executor, do not poll a spawned task inside nurse(): its first poll happens
+    /// when the driver next lets the executor run (at the same virtual time)
+    pub defer_first_poll: bool,
+    pub unpolled: Vec<usize>,
 }
 
 #[derive(Clone)]
@@ -72,6 +76,8 @@ impl VExec {
             polls: 0,
             tie_breaks: 0,
             immediate_sleeps: 0,
+            defer_first_poll: false,
+            unpolled: vec![],
         })))
     }
 
@@ -128,7 +134,26 @@ impl VExec {
 
     /// Let virtual time run up to `t` (inclusive), firing due timers in deadline order; ties are
     /// broken by the PRNG.
+    /// first polls that were deferred out of nurse()
+    pub fn run_unpolled(&self) {
+        loop {
+            let t = {
+                let mut g = self.lock();
+                if g.unpolled.is_empty() {
+                    None
+                } else {
+                    Some(g.unpolled.remove(0))
+                }
+            };
+            match t {
+                Some(t) => self.poll_task(t),
+                None => break,
+            }
+        }
+    }
+
     pub fn advance_to(&self, t: u64) {
+        self.run_unpolled();
         loop {
             let next = {
                 let mut g = self.lock();
@@ -225,8 +250,15 @@ impl Nurse<()> for VExec {
             g.task_done_at.push(None);
             (g.tasks.len() - 1, g.elapse_inside_nurse.get(idx).copied().unwrap_or(0))
         };
-        // the executor polls the new task right away (it registers its first timer)
-        self.poll_task(t);
+        let defer = { self.lock().defer_first_poll } && elapse == 0;
+        if defer {
+            // the first poll (which registers the first timer) happens when the executor next runs,
+            // i.e. after nurse() and the greeting have returned, still at this virtual time
+            self.lock().unpolled.push(t);
+        } else {
+            // the executor polls the new task right away (it registers its first timer)
+            self.poll_task(t);
+        }
         if elapse > 0 {
             let until = self.now() + elapse;
             self.advance_to(until);
